@@ -35,7 +35,14 @@ for _f in sorted(_glob.glob(_os.path.join(_os.path.dirname(_os.path.abspath(__fi
     _spec.loader.exec_module(_m)
     for _k, _v in _m.PROPS.items():
         if _k in PROPS:
-            _v = dict(_v)
-            _v["families"] = PROPS[_k].get("families", []) + _v.get("families", [])
-            _v["defects"] = sorted(set(PROPS[_k].get("defects", []) + _v.get("defects", [])))
+            _merged = dict(PROPS[_k])
+            for _kk, _vv in _v.items():
+                if _kk == "families":
+                    _names = [f["name"] for f in _merged.get("families", [])]
+                    _merged["families"] = _merged.get("families", []) + [f for f in _vv if f["name"] not in _names]
+                elif _kk == "defects":
+                    _merged["defects"] = sorted(set(_merged.get("defects", []) + _vv))
+                else:
+                    _merged[_kk] = _vv
+            _v = _merged
         PROPS[_k] = _v
